@@ -95,6 +95,13 @@ func (e *ExtensionObject) Encode() ([]byte, error) {
 		return buf.Bytes(), buf.Error()
 	}
 
+	// Decode leaves Value nil for an empty body and for a type that is not
+	// registered: encode an empty body instead of handing nil to the encoder.
+	if e.Value == nil {
+		buf.WriteUint32(0)
+		return buf.Bytes(), buf.Error()
+	}
+
 	body := NewBuffer(nil)
 	body.WriteStruct(e.Value)
 	if body.Error() != nil {
